@@ -27,6 +27,12 @@ when it existed before and exists after, never a third value), records the call
 does not touch must be unchanged, own identity unchanged, aggregate loads
 consistent with the recovered records.
 
+Part 1b (record (de)serialisation, `text_factory = bytes`).  After every history the database as it is on disk is
+copied, every record / key column (identities.public_key/private_key, sessions.record, prekeys.record,
+signed_prekeys.record, sender_keys.record) is rewritten to storage class TEXT with the same bytes - the shape of an
+axolotl.db written by yowsup under Python 2.7 - and a fresh LiteAxolotlStore on that copy must pass the same battery
+against the model as a plain reopen (`legacy-text-storage:<record kind | raises-open | raises-load>`).
+
 Reporting.  A history is reported only when none of its proper prefixes (all of them enumerated histories) already
 leaves the live store in disagreement with the model; per signature the shortest history is kept, independent of
 VERIF_SEED.  Signatures name the call site: `crash-lost:<call>` (record existed before, exists after, missing at a
@@ -703,6 +709,8 @@ def kind_of(key):
 class HistResult(object):
     def __init__(self):
         self.violations = []
+        self.legacy_images = 0        # final on-disk states re-read with TEXT storage class
+        self.legacy_cells = 0         # record cells converted BLOB -> TEXT for that
         self.live_dirty = False       # a Part-1 violation: the live store disagrees with the model from here on
         self.evaluations = 0          # battery comparisons against the model (live + recovered images)
         self.boundaries = 0
@@ -713,6 +721,9 @@ class HistResult(object):
         self.outcome = None
 
 
+RUN_SCRATCH = [None]      # per-run scratch root made by run() before the pool forks; removed by the parent at the end
+
+
 def run_history(fam_name, hist, crash=True):
     """Execute one history on a fresh real store; returns HistResult."""
     build_values()
@@ -720,7 +731,7 @@ def run_history(fam_name, hist, crash=True):
     fam = families()[fam_name]
     res = HistResult()
     case = {"family": fam_name, "history": [list(o) for o in hist]}
-    scratch = tempfile.mkdtemp(prefix="c13-", dir=env.scratch_root())
+    scratch = tempfile.mkdtemp(prefix="c13-", dir=RUN_SCRATCH[0] or env.scratch_root())
     work = os.path.join(scratch, "live")
     os.mkdir(work)
     real = None
@@ -820,6 +831,8 @@ def run_history(fam_name, hist, crash=True):
             res.final_obs = (tuple(sorted(recs.items())), tuple(sorted(aggs.items())), "same")
             if first_open is not None and not res.live_dirty:
                 check_first_open_crash(fam, first_open, case, scratch, res)
+        if crash and not res.violations:
+            check_legacy_text(fam, real, m, hist, case, scratch, work, res)
         return res
     finally:
         if real is not None:
@@ -909,6 +922,96 @@ def check_crash_points(fam, real, recorder, op, pre, post, hist, case, scratch, 
                                        ccase, {key: d[key], "records": recs}))
 
 
+# every column that holds key material / a serialised record (schemas in store/sqlite/lite*store.py)
+RECORD_COLUMNS = [("identities", "public_key"), ("identities", "private_key"), ("sessions", "record"),
+                  ("prekeys", "record"), ("signed_prekeys", "record"), ("sender_keys", "record")]
+
+
+def to_legacy_text_storage(dbpath):
+    """Give the file the on-disk shape of an axolotl.db written by yowsup under Python 2.7, where a bound `str` is
+    stored with storage class TEXT: same bytes, TEXT instead of BLOB, in every record / key column.  Uses the plain
+    sqlite3 module (not the code under test).  Returns the number of cells converted; checks its own work."""
+    import sqlite3
+    conn = sqlite3.connect(dbpath)
+    conn.text_factory = bytes
+    n = 0
+    try:
+        for table, col in RECORD_COLUMNS:
+            q = "SELECT _id, %s FROM %s ORDER BY _id" % (col, table)
+            before = conn.execute(q).fetchall()
+            cur = conn.execute("UPDATE %s SET %s = CAST(%s AS TEXT) WHERE typeof(%s) = 'blob'" % (table, col, col, col))
+            n += cur.rowcount
+            after = conn.execute(q).fetchall()
+            types = set(r[0] for r in conn.execute("SELECT typeof(%s) FROM %s" % (col, table)).fetchall())
+            if after != before or not types <= set([b"text", b"null"]):      # text_factory=bytes: typeof() is bytes too
+                raise RuntimeError("harness: CAST to TEXT changed bytes or left a blob in %s.%s" % (table, col))
+        conn.commit()
+    finally:
+        conn.close()
+    return n
+
+
+def check_legacy_text(fam, real, m, hist, case, scratch, work, res):
+    """(De)serialisation side of durability: the file as it is on disk after the history, with every record column
+    rewritten to TEXT storage class (what a Python-2.7 yowsup wrote), must read back through a fresh
+    LiteAxolotlStore exactly as a plain reopen does - that is what `text_factory = bytes` is for."""
+    ldir = os.path.join(scratch, "legacy")
+    crashsql.write_dir_image(crashsql.read_dir_image(work), ldir)
+    path = os.path.join(ldir, DB)
+    res.legacy_cells += to_legacy_text_storage(path)
+    res.legacy_images += 1
+    lcase = dict(case, legacy_text_storage=True)
+    where = "after [%s], file with TEXT-typed record columns (as written under python 2.7)" % fmt_hist(hist)
+    store2 = None
+    try:
+        try:
+            store2 = LiteAxolotlStore(path)
+        except Exception as e:
+            res.violations.append(("C13:legacy-text-storage:raises-open", "%s: opening the store raised %r" % (where, e),
+                                   lcase, repr(e)))
+            return
+        try:
+            recs, aggs = fam.battery(store2)
+            own = real.own_status(store2)
+        except Exception as e:
+            res.violations.append(("C13:legacy-text-storage:raises-load", "%s: a load function raised %r" % (where, e),
+                                   lcase, repr(e)))
+            return
+    finally:
+        if store2 is not None:
+            close_store(store2)
+    res.evaluations += 1
+    erecs, eaggs = fam.expected(m)
+    bad = []
+    for key, d in diff_obs(recs, erecs).items():
+        bad.append(("C13:legacy-text-storage:%s" % kind_of(key), key, d))
+    if not bad:
+        for key, d in diff_obs(aggs, eaggs).items():
+            bad.append(("C13:legacy-text-storage:%s" % key, key, d))
+    if own != "same":
+        bad.append(("C13:legacy-text-storage:own-identity", "own identity", {"observed": own, "expected": "same"}))
+    if not bad:
+        return
+    # attribute to the storage class only when the very same image reads correctly with its BLOB columns
+    # (otherwise data were not on disk in the first place: the reopen / crash histories report that)
+    pdir = os.path.join(scratch, "plain")
+    crashsql.write_dir_image(crashsql.read_dir_image(work), pdir)
+    store3 = None
+    try:
+        store3 = LiteAxolotlStore(os.path.join(pdir, DB))
+        plain = fam.battery(store3) + (real.own_status(store3),)
+    except Exception:
+        plain = None
+    finally:
+        if store3 is not None:
+            close_store(store3)
+    if plain != (erecs, eaggs, "same"):
+        return
+    for sig, key, d in bad:
+        res.violations.append((sig, "%s: %s reads as %r, stored was %r" % (where, key, d["observed"], d["expected"]),
+                               lcase, {key: d}))
+
+
 def check_first_open_crash(fam, recorder, case, scratch, res):
     """Process death while the very first open creates the tables and the own identity: whatever is on disk must
     open as an empty store with an own identity that from then on stays the same."""
@@ -986,7 +1089,8 @@ def work_chunk(item):
     fam_name, hists = item
     fam = families()[fam_name]
     out = {"family": fam_name, "violations": [], "histories": 0, "evaluations": 0, "boundaries": 0, "images": 0,
-           "mid": 0, "nontrivial": 0, "models": set(), "outcomes": set(), "violating_histories": 0, "suppressed": 0}
+           "mid": 0, "nontrivial": 0, "models": set(), "outcomes": set(), "violating_histories": 0, "suppressed": 0,
+           "legacy_images": 0, "legacy_cells": 0}
     for h in hists:
         r = run_history(fam_name, h)
         out["histories"] += 1
@@ -994,6 +1098,8 @@ def work_chunk(item):
         out["boundaries"] += r.boundaries
         out["images"] += r.images
         out["mid"] += r.mid_update_images
+        out["legacy_images"] += r.legacy_images
+        out["legacy_cells"] += r.legacy_cells
         if h and fam.is_writer(h[-1]) and r.images >= 2:
             out["nontrivial"] += 1      # histories are pairwise distinct by construction
         if r.final_model is not None:
@@ -1041,6 +1147,16 @@ def closure_bfs(fam_name):
 
 
 def run(ctx):
+    RUN_SCRATCH[0] = tempfile.mkdtemp(prefix="c13run-", dir=env.scratch_root())
+    try:
+        _run(ctx)
+    finally:
+        # also sweeps what workers leave behind when the pool is torn down early
+        shutil.rmtree(RUN_SCRATCH[0], ignore_errors=True)
+        RUN_SCRATCH[0] = None
+
+
+def _run(ctx):
     from vf.runner import shuffled
     build_values()
     crashsql.install()
@@ -1068,6 +1184,7 @@ def run(ctx):
     items = shuffled(items, ctx.seed, "c13/items")
 
     tot = {"histories": 0, "evaluations": 0, "boundaries": 0, "images": 0, "mid": 0, "nontrivial": 0, "nviol": 0,
+           "legacy_images": 0, "legacy_cells": 0,
            "violating_histories": 0, "suppressed": 0}
     per_fam = dict((n, {"histories": 0, "crash_points": 0, "crash_images_recovered": 0, "model_states": set()})
                    for n in fams)
@@ -1111,6 +1228,8 @@ def run(ctx):
         "crash_points": tot["boundaries"],
         "crash_images_recovered": tot["images"],
         "images_with_hot_journal": tot["mid"],
+        "legacy_text_storage_reopens": tot["legacy_images"],
+        "legacy_text_cells_converted": tot["legacy_cells"],
         "per_family": per_fam,
         "closure_bfs": closure,
         "distinct_outcomes": len(outcomes),
